@@ -1,12 +1,169 @@
 package checks
 
+import (
+	"strings"
+
+	"mvdan.cc/sh/v3/syntax"
+)
+
+var c12Reserved = map[string]bool{
+	"if": true, "then": true, "elif": true, "else": true, "fi": true, "while": true, "until": true, "do": true, "done": true,
+	"for": true, "case": true, "esac": true, "in": true, "{": true, "}": true, "!": true,
+}
+
+// c12CmdStartAfter lists the tokens after which the next token is in command
+// position.
+var c12CmdStartAfter = map[string]bool{
+	"\n": true, ";": true, "&": true, "&&": true, "||": true, "|": true, "(": true, ")": true, "{": true, "}": true, "!": true, ";;": true,
+	"if": true, "then": true, "elif": true, "else": true, "while": true, "until": true, "do": true, "fi": true, "done": true, "esac": true,
+}
+
+func c12IsRedir(t string) bool {
+	if _, ok := c12HeredocBody[t]; ok {
+		return true
+	}
+	t = strings.TrimLeft(t, "0123456789")
+	return strings.HasPrefix(t, ">") || strings.HasPrefix(t, "<")
+}
+
+// c12BangNotFollowedByCommand: some `!` token is followed by the end of the
+// input, an operator, or another `!`.
+func c12BangNotFollowedByCommand(toks []string) bool {
+	for i, t := range toks {
+		if t != "!" {
+			continue
+		}
+		if i+1 == len(toks) {
+			return true
+		}
+		switch toks[i+1] {
+		case "\n", ";", "&", "&&", "||", "|", ")", "}", ";;", "!", "then", "do", "else", "elif", "fi", "done", "esac":
+			return true
+		}
+	}
+	return false
+}
+
 // c12Intentional returns the name of the documented intentional difference
-// the divergence matches, or "".
+// the divergence matches, or "". The names refer to the repository's own
+// tables (syntax/parser_test.go, entries marked flipConfirm...).
 func c12Intentional(lang string, toks []string, src, perr string, shellAccepts bool) string {
+	switch {
+	// errCase("! !", ..., flipConfirm(LangBash)) and errCase("! ! foo", ...):
+	// "bash allows lone `!`, unlike dash, mksh, and us."
+	case lang == "bash" && shellAccepts && c12BangNotFollowedByCommand(toks) &&
+		(strings.HasSuffix(perr, "`!` cannot form a statement alone") || strings.HasSuffix(perr, "cannot negate a command multiple times")):
+		return "lone_bang_bash"
+	// errCase("<<EOF", ..., flipConfirmUnclosedHeredoc): "The real shells which
+	// allow unclosed heredocs."
+	case shellAccepts && strings.Contains(perr, "unclosed here-document") && strings.Contains(src, "<<"):
+		return "unclosed_heredoc"
+	}
 	return ""
 }
 
-// c12Class names the narrow family of a divergence that is not intentional.
+// c12SimpleFuncBody reports whether the parser (bash mode) accepted a
+// function declaration whose body is not a compound command (a simple
+// command, or redirections only).
+func c12SimpleFuncBody(src string) bool {
+	f, err := syntax.NewParser(syntax.Variant(syntax.LangBash)).Parse(strings.NewReader(src), "")
+	if err != nil {
+		return false
+	}
+	found := false
+	syntax.Walk(f, func(n syntax.Node) bool {
+		if fd, ok := n.(*syntax.FuncDecl); ok && fd.Body != nil {
+			switch fd.Body.Cmd.(type) {
+			case nil, *syntax.CallExpr:
+				found = true
+			}
+		}
+		return true
+	})
+	return found
+}
+
+// c12KeywordCalls returns the set of reserved words that the parser turned
+// into the name of a simple command or of a function in src.
+func c12KeywordCalls(lang, src string) []string {
+	v := syntax.LangBash
+	if lang == "posix" {
+		v = syntax.LangPOSIX
+	}
+	f, err := syntax.NewParser(syntax.Variant(v)).Parse(strings.NewReader(src), "")
+	if err != nil {
+		return nil
+	}
+	found := map[string]bool{}
+	syntax.Walk(f, func(n syntax.Node) bool {
+		switch x := n.(type) {
+		case *syntax.CallExpr:
+			if len(x.Args) > 0 && len(x.Assigns) == 0 {
+				if lit := x.Args[0].Lit(); c12Reserved[lit] {
+					found[lit] = true
+				}
+			}
+		case *syntax.FuncDecl:
+			if x.Name != nil && c12Reserved[x.Name.Value] {
+				found[x.Name.Value] = true
+			}
+		}
+		return true
+	})
+	var out []string
+	for _, k := range []string{"else", "in", "if", "then", "elif", "fi", "while", "until", "do", "done", "for", "case", "esac", "{", "}", "!"} {
+		if found[k] {
+			out = append(out, k)
+		}
+	}
+	return out
+}
+
+// c12KeywordAfterLeadingRedirect: at some command start there is a run of
+// one or more redirection tokens directly followed by a reserved word.
+func c12KeywordAfterLeadingRedirect(toks []string) bool {
+	for i := 0; i < len(toks); i++ {
+		if !c12IsRedir(toks[i]) || !(i == 0 || c12CmdStartAfter[toks[i-1]]) {
+			continue
+		}
+		j := i
+		for j < len(toks) && c12IsRedir(toks[j]) {
+			j++
+		}
+		if j < len(toks) && c12Reserved[toks[j]] {
+			return true
+		}
+	}
+	return false
+}
+
+// c12Class names the narrow family of a divergence that is not intentional
+// ("" = unclassified).
 func c12Class(lang string, toks []string, src, perr string, shellAccepts bool) string {
+	if perr == "" && !shellAccepts {
+		// the parser accepted: which reserved words did it take for command names?
+		kws := c12KeywordCalls(lang, src)
+		if len(kws) > 0 {
+			only := true
+			for _, k := range kws {
+				if k != "else" && k != "in" {
+					only = false
+				}
+			}
+			if only {
+				return "accepts-else-or-in-in-command-position"
+			}
+			return ""
+		}
+		if lang == "bash" && c12SimpleFuncBody(src) {
+			return "bash-accepts-function-body-that-is-not-a-compound-command"
+		}
+		return ""
+	}
+	if perr != "" && shellAccepts {
+		if c12KeywordAfterLeadingRedirect(toks) {
+			return "rejects-reserved-word-after-leading-redirect"
+		}
+	}
 	return ""
 }
